@@ -120,14 +120,22 @@ def job(args):
                 ob('A1', f"{module}.{fn_}/{d}D/swap={AX[a]}{AX[b]}", ok, f"[{cls}] component {AX[a]} transposed vs component {AX[b]}: difference {fmt_rat(lhs - rhs, 6)}" if not ok else f"[{cls}] components agree", fi.loc())
         # ghost values and boundary rows: face names permute with the axes
         FACE_OF = {0: ('left', 'right'), 1: ('bottom', 'top'), 2: ('back', 'front')}
-        bc = w.boundary_conditions()
         gi = F.implementer(sm, 'boundary', 'cellValuesWithBoundaries', cls)[0]
         ri = F.implementer(sm, 'boundary', 'boundaryConditionsTerm', cls)[0]
         gfi, rfi = sm.func('boundary', gi), sm.func('boundary', ri)
         units.update({f"boundary.{gi}", f"boundary.{ri}"})
         phi_int = Box(atom_array(('phi',), w.N, offset=tuple(ONE for _ in w.N)))
-        ghost = snap(w.call('boundary', 'cellValuesWithBoundaries', phi_int, bc))
-        Mb, Rb = w.call('boundary', 'boundaryConditionsTerm', bc)
+        _bcache = {}
+
+        def bsys(per_axes):
+            """(ghost array, boundary matrix, boundary rhs) with the faces of the given axes flagged periodic"""
+            key = tuple(sorted(per_axes))
+            if key not in _bcache:
+                bc = w.boundary_conditions(periodic={f for k in key for f in FACE_OF[k]})
+                gh = snap(w.call('boundary', 'cellValuesWithBoundaries', phi_int, bc))
+                Mb, Rb = w.call('boundary', 'boundaryConditionsTerm', bc)
+                _bcache[key] = (gh, Mb, Rb)
+            return _bcache[key]
         for (a, b) in swaps:
             perm = {AX[a]: AX[b], AX[b]: AX[a]}
             for ax in AX:
@@ -154,20 +162,28 @@ def job(args):
                     order = [j for j in range(d) if j != nax]
                     return Rat.atom(('bc', new_face, k[2]) + tuple(moved[j] for j in order))
                 return base(k, rec)
-            for side_val, nm in ((ZERO, 'low'), (None, 'high')):
-                G = tuple((ZERO if nm == 'low' else w.N[a] + 1) if k == a else w.t[k] for k in range(d))
-                Gt = list(G)
-                Gt[a], Gt[b] = deep_map(G[b], tf), deep_map(G[a], tf)
-                for k in range(d):
-                    if k not in (a, b):
-                        Gt[k] = deep_map(G[k], tf)
-                Gt = tuple(Gt)
-                lhs = deep_map(ghost.at(G), tf)
-                rhs = ghost.at(Gt)
-                ob('A1', f"boundary.{gi}/swap={AX[a]}{AX[b]}", is_zero(lhs - rhs), f"[{cls}] ghost {F.cstr(G)} transposed vs ghost {F.cstr(Gt)}: difference {fmt_rat(lhs - rhs, 5)}", gfi.loc())
-                r1 = deep_map(apply_row(w.matrix_row(Mb, G), 'phi') - w.vector_at(Rb, G), tf)
-                r2 = apply_row(w.matrix_row(Mb, Gt), 'phi') - w.vector_at(Rb, Gt)
-                ob('A1', f"boundary.{ri}/swap={AX[a]}{AX[b]}", is_zero(r1 - r2) or is_zero(r1 + r2), f"[{cls}] boundary row {F.cstr(G)} transposed vs row {F.cstr(Gt)}: difference {fmt_rat(r1 - r2, 5)}", rfi.loc())
+            sw = {a: b, b: a}
+            # the same relabelling must hold when an axis is declared periodic: periodic along p on one side of the
+            # identity, periodic along swap(p) on the other
+            for per in ((), (a,), (b,)):
+                per_t = tuple(sw.get(k, k) for k in per)
+                ghost1, Mb1, Rb1 = bsys(per)
+                ghost2, Mb2, Rb2 = bsys(per_t)
+                ptxt = f"/periodic={''.join(AX[k] for k in per)}" if per else ''
+                for side_val, nm in ((ZERO, 'low'), (None, 'high')):
+                    G = tuple((ZERO if nm == 'low' else w.N[a] + 1) if k == a else w.t[k] for k in range(d))
+                    Gt = list(G)
+                    Gt[a], Gt[b] = deep_map(G[b], tf), deep_map(G[a], tf)
+                    for k in range(d):
+                        if k not in (a, b):
+                            Gt[k] = deep_map(G[k], tf)
+                    Gt = tuple(Gt)
+                    lhs = deep_map(ghost1.at(G), tf)
+                    rhs = ghost2.at(Gt)
+                    ob('A1', f"boundary.{gi}/swap={AX[a]}{AX[b]}{ptxt}", is_zero(lhs - rhs), f"[{cls}] ghost {F.cstr(G)} transposed vs ghost {F.cstr(Gt)}: difference {fmt_rat(lhs - rhs, 5)}", gfi.loc())
+                    r1 = deep_map(apply_row(w.matrix_row(Mb1, G), 'phi') - w.vector_at(Rb1, G), tf)
+                    r2 = apply_row(w.matrix_row(Mb2, Gt), 'phi') - w.vector_at(Rb2, Gt)
+                    ob('A1', f"boundary.{ri}/swap={AX[a]}{AX[b]}{ptxt}", is_zero(r1 - r2) or is_zero(r1 + r2), f"[{cls}] boundary row {F.cstr(G)} transposed vs row {F.cstr(Gt)}: difference {fmt_rat(r1 - r2, 5)}", rfi.loc())
         return dict(obs=obs, units=sorted(units), samples=samples)
 
     if kind == 'embed':
